@@ -5,8 +5,8 @@ Require Import TT.Model.Str TT.Model.C08Fingerprint TT.Model.C08Run.
 
 Definition c14_trace (p : project) (c : config) (h : list hstep) : list hobs :=
   trace false (init_state p c, None) h.
-(* class of the schedule-dependent finding: the two discovery orders give different fingerprints *)
-Definition c14_order (w1 w2 : sched) (p : project) (c : config) : bool := kf_C14_order w1 w2 p c.
+(* do two discovery orders give different fingerprints? (never, after the repair: C14_fp_order_independent) *)
+Definition c14_order (w1 w2 : sched) (p : project) (c : config) : bool := negb (tree_eqb (fp w1 p c) (fp w2 p c)).
 Definition c14_order_files (w1 w2 : sched) (p : project) (c : config) : bool :=
   negb (tree_eqb (fp_cmds (analyse w1 p)) (fp_cmds (analyse w2 p))).
 Definition c14_path (w : sched) (p1 p2 : project) (c : config) : bool := kf_C14_path w p1 p2 c.
